@@ -311,6 +311,13 @@ func (r *vReplica) apply(e *vEntry) (msgs []outputstream.Message, panicked strin
 
 var stateEvery = 7
 
+// fan-out probes (fanout_test.go): every vFanEvery-th history, numbered from vFanNext
+var (
+	vFanEvery = 0
+	vFanNext  = 200000
+	vFanCount = 0
+)
+
 var vCreatedRe = regexp.MustCompile(`This server was created .*$`)
 
 // vSameOut compares two reply lists byte for byte (003's creation time masked).
@@ -365,9 +372,10 @@ func vStateDiff(want, got map[string]string) string {
 // ---------------------------------------------------------------- trace records
 
 type vRecord struct {
-	K      string                 `json:"k"` // reset | step
-	H      int                    `json:"h"` // history number
-	I      int                    `json:"i"` // step number within the history
+	K      string                 `json:"k"`              // reset | step
+	Base   int                    `json:"base,omitempty"` // fan-out probe: number of the history whose final state is probed
+	H      int                    `json:"h"`              // history number
+	I      int                    `json:"i"`              // step number within the history
 	E      *vEntry                `json:"e,omitempty"`
 	Post   map[string]interface{} `json:"post"`
 	Out    []vReply               `json:"out"`
@@ -543,6 +551,19 @@ func vRunHistory(t *testing.T, h int, next func(step int, st map[string]interfac
 			rec.View = vProbeView(d0.srv, rec.Post)
 		}
 		enc.Encode(rec)
+	}
+	if vFanEvery > 0 && h%vFanEvery == 0 {
+		lastTs := int64(2000)
+		if m, ok := d0.srv.VerifProject()["ss"].([]interface{}); ok {
+			for _, x := range m {
+				if la := x.(map[string]interface{})["la"].(int64); la > lastTs {
+					lastTs = la
+				}
+			}
+		}
+		n := vFanOut(enc, h, vFanNext, d0.srv, maxid+1, lastTs+1)
+		vFanNext += n
+		vFanCount += n
 	}
 	// C17: expiry sweep around the threshold, on a serialized copy of the final state
 	if b, err := d0.srv.Marshal(0); err == nil {
@@ -729,6 +750,7 @@ func TestVerifIRC(t *testing.T) {
 	k := vEnvInt("VERIF_IRC_K", 3)
 	snapEvery := vEnvInt("VERIF_IRC_SNAP", 1)
 	stateEvery = vEnvInt("VERIF_IRC_STATE_EVERY", 7)
+	vFanEvery = vEnvInt("VERIF_IRC_FANOUT", 0)
 	h := 0
 	if in := os.Getenv("VERIF_IRC_IN"); in != "" {
 		pf, err := os.Open(in)
